@@ -89,12 +89,22 @@ class Container:
             op.transition(OperatorState.RUNNING)
 
             segments = op.get_segments()
-            for seg_idx, seg in enumerate(segments):
-                # Calculate ticks for I/O phase and CPU phase
+            # Calculate ticks for I/O phase and CPU phase of every segment
+            seg_ticks = []
+            for seg in segments:
                 io_secs = seg.get_io_seconds()
                 cpu_secs = seg.get_cpu_time(self.assignment.cpu)
-                io_ticks = int(io_secs / self.tick_length_secs)
-                cpu_ticks = int(cpu_secs / self.tick_length_secs)
+                seg_ticks.append([int(io_secs / self.tick_length_secs),
+                                  int(cpu_secs / self.tick_length_secs)])
+            # An operator occupies at least one tick, and it completes in the
+            # last tick of the last segment that has any (durations shorter
+            # than a tick round down to zero ticks).
+            last_seg = max((k for k, t in enumerate(seg_ticks) if sum(t) > 0), default=None)
+            if last_seg is None:
+                last_seg = len(segments) - 1
+                seg_ticks[last_seg][1] = 1
+            for seg_idx, seg in enumerate(segments):
+                io_ticks, cpu_ticks = seg_ticks[seg_idx]
                 total_seg_ticks = io_ticks+cpu_ticks
 
                 for i in range(total_seg_ticks):
@@ -120,7 +130,7 @@ class Container:
                     # suspend, depending on whether this is the last
                     # op.
                     self._can_suspend = False
-                    if seg_idx == len(segments)-1 and i == total_seg_ticks - 1:
+                    if seg_idx == last_seg and i == total_seg_ticks - 1:
                         # Operator completed successfully
                         op.transition(OperatorState.COMPLETED)
                         self._current_op_idx += 1
